@@ -435,6 +435,14 @@ func checkC03(p *core.Program, r *core.Report) {
 	const R11 = "C03.R11 no-stale-timeout"
 	r.Rule(R11, "a handshake timer that was stopped or replaced does not deliver its timeout (cancellation protocol of C14.R1-R3, R5): a stale timeout aborts a side that has just granted a prolongation, so a later approval completes nothing")
 	importRules(p, r, "C14", map[string]string{"C14.R1 per-arm-token": R11, "C14.R2 non-lossy-stop": R11, "C14.R3 fire-revalidation": R11, "C14.R5 arm-always-arms": R11}, nil)
+	const R14 = "C03.R14 each-learns-the-others-ship-id"
+	r.Rule(R14, "a newly learned SHIP ID is stored and reported exactly once before the approval, and the report passes this connection's SKI and the id that was just stored (shared with C09.R1): each side learns the other's SHIP ID")
+	importRules(p, r, "C09", map[string]string{"C09.R1 access-decision-table": R14}, func(key string) bool {
+		return strings.Contains(key, "report arguments") || strings.Contains(key, "new-id-report")
+	})
+	const R13 = "C03.R13 giving-up-cannot-block"
+	r.Rule(R13, "the hub aborts / closes a connection with none of its own mutexes held (shared with C08.R8): a cancel that lands while the transport close is being delivered ends the connection synchronously, the end report needs the registry mutex the cancelling goroutine holds - the giving-up side never closes, its peer has ended")
+	importRules(p, r, "C08", map[string]string{"C08.R8 hub-calls-into-connections-are-open-calls": R13}, nil)
 	const R12 = "C03.R12 trust-predicate-is-the-stored-flag"
 	r.Rule(R12, "the predicate the handshake asks for trust returns exactly the trust flag stored for the SKI (shared with C01.R4): a predicate that also accepts e.g. the peer's announced auto-accept flag lets the server go ready after the user cancelled, and both sides complete")
 	importRules(p, r, "C01", map[string]string{"C01.R4 hub-trust-writers": R12}, nil)
